@@ -369,3 +369,26 @@ def lookup_fn(interp: Interp, qual: str) -> Any:
                 v = interp.getattr(v, p)
             return v
     raise OutOfReach(f"cannot resolve {qual}")
+
+
+class GenericSeq:
+    """A sequence of arbitrary (unknown) length.  A `for` loop over it executes its body
+    ONCE, for an arbitrary element, after `on_enter` has replaced the loop-carried state
+    by an arbitrary state satisfying the loop invariant: this is the *preservation* VC of
+    the invariant; *initiation* is checked by `on_enter` on the state it finds, *use* by
+    the postcondition on what the function returns."""
+
+    def __init__(self, elem: Any, on_enter: Optional[Callable[[Any, Any], None]] = None, name: str = "seq"):
+        self.elem = elem
+        self.on_enter = on_enter
+        self.name = name
+        self.entered = 0
+
+    def pyvc_generic_loop(self, interp: Any, env: Any) -> List[Any]:
+        self.entered += 1
+        if self.on_enter is not None:
+            self.on_enter(interp, env)
+        return [self.elem]
+
+    def pyvc_types(self) -> Any:
+        return {"list", "Iterable", "Sequence"}
